@@ -373,12 +373,15 @@ class CuckooFilter:
         # and move things around to the other index, if possible, until we
         # either move everything around or hit the maximum number of swaps
         idx = random.choice([idx_1, idx_2])
+        orig_fingerprint = fingerprint
+        swaps = []
 
         for _ in range(self.max_swaps):
             # select one element to be swapped out...
             swap_elm = random.randint(0, self.bucket_size - 1)
 
             swb = self.buckets[idx][swap_elm]
+            swaps.append((idx, swap_elm, swb))
             fingerprint, self.buckets[idx][swap_elm] = swb, fingerprint
 
             # now find another place to put this fingerprint
@@ -390,8 +393,11 @@ class CuckooFilter:
                 self._inserted_elements += 1
                 return None
 
-        # if we got here we have an error... we might need to know what is left
-        return fingerprint
+        # if we got here we have an error... undo the evictions so that no stored
+        # fingerprint is lost and hand back the fingerprint that could not be inserted
+        for s_idx, s_elm, s_val in reversed(swaps):
+            self.buckets[s_idx][s_elm] = s_val
+        return orig_fingerprint
 
     def _load(self, file: Union[Path, str, IOBase, mmap, bytes]) -> None:
         """load a cuckoo filter from file"""
